@@ -12,6 +12,12 @@ if ! (cd fxsim && go build -tags verif -o ../bin/fxsim ./cmd/fxsim) > .build.$ID
   echo "INFRA: build failed"; tail -n 40 .build.$ID.log; rm -f .build.$ID.log; exit 2
 fi
 rm -f .build.$ID.log
+if [ "$ID" = "C17" ]; then # C17 replicas also run in a binary of the same tree built with the second toolchain
+  if ! (cd fxsim && /opt/veriftools/go1.26.8/bin/go build -tags verif -o ../bin/fxsim126 ./cmd/fxsim) > .build.$ID.log 2>&1; then
+    echo "INFRA: go1.26.8 build failed"; tail -n 40 .build.$ID.log; rm -f .build.$ID.log; exit 2
+  fi
+  rm -f .build.$ID.log
+fi
 if [ "$MODE" = "--replay" ]; then
   exec ./bin/fxsim replay -prop "$ID" "$3"
 fi
